@@ -966,6 +966,12 @@ class AccessMixin(object):
       st.heap[key] = z3.Store(arr, r, items)
       st.assume(z3.Function('split_count', I, I, I)(s.t, args[0].t) == n)
       yield st, res
+    elif name == 'join' and len(args) == 1:
+      # sep.join(iterable): a string determined by the separator and the sequence (TypeError for non-string items is
+      # not modelled: the argument is taken to be a sequence of strings)
+      a = args[0]
+      t = a.t if isinstance(a, V) and a.t is not None else z3.IntVal(0)
+      yield st, V(STR, z3.Function('str_join', I, I, I)(s.t, t))
     elif name == 'lower':
       if s.py is not None:
         yield st, self.const_str(s.py.lower())
